@@ -32,6 +32,7 @@ func execBurst(plan *Plan, refs *refTable) *runResult {
 	s := &sim{plan: plan, refs: refs, faults: res.Faults}
 	for i, k := range plan.Shared {
 		sub := callEntry(int(k.Entry), pathOf(k), pool.inputs[k.Input].text)
+		sub.initSeqs()
 		r := &retained{sub: sub, task: -1, op: i, key: k, share: true}
 		r.h0 = structHash(sub.val, sub.err)
 		s.shared = append(s.shared, r)
